@@ -457,7 +457,7 @@ impl TerminalRenderer {
             // has the same face as image cells.
             term.execute(TerminalCommand::Face(face))?;
             let size = image.size_cells(self.size.pixels_per_cell());
-            for row in pos.row..pos.row + size.height {
+            for row in pos.row..min(pos.row + size.height, self.back.height()) {
                 term.execute(TerminalCommand::CursorTo(Position::new(row, pos.col)))?;
                 term.execute(TerminalCommand::EraseChars(size.width))?;
             }
